@@ -90,8 +90,8 @@ func mirrorRunCase(c mirrorCase, tr *eng.Trace, st *eng.Stats) ([]eng.OracleFail
 		w.famTrunc()
 	case "interleave":
 		w = mirrorNewWorld(c, r, tr, st, []mirrorLogDef{{size(1400), true}})
-		w.famInterleave(v % 8)
-		st.Count(fmt.Sprintf("interleave-variant:%d", v%8))
+		w.famInterleave(v % 9)
+		st.Count(fmt.Sprintf("interleave-variant:%d", v%9))
 	case "tickets":
 		w = mirrorNewWorld(c, r, tr, st, []mirrorLogDef{{size(1100), true}, {size(600), true}})
 		w.famTickets()
